@@ -16,3 +16,4 @@ done
 git -C $WT reset -q --hard; git -C $WT clean -fdq -e target
 # the run above regenerated lean/BumpVerif/Gen/* from the scratch worktree: bring them back to /repo's
 python3 tools/extract.py >/dev/null 2>&1
+(cd lean && lake build $(ls BumpVerif/Gen/Fn*.lean | sed 's#/#.#g; s#\.lean$##') >/dev/null 2>&1)
